@@ -14,8 +14,10 @@ func (stdin *Stdin) Write(p []byte) (int, error) {
 	}
 
 	for {
+		verifYield(stdin, "w.sel")
 		select {
 		case <-stdin.ctx.Done():
+			verifYield(stdin, "w.drop")
 			stdin.mutex.Lock()
 			stdin.buffer = []byte{}
 			stdin.mutex.Unlock()
@@ -24,6 +26,7 @@ func (stdin *Stdin) Write(p []byte) (int, error) {
 		}
 
 		//stdin.mutex.RLock()
+		verifYield(stdin, "w.chk")
 		stdin.mutex.Lock()
 		buffSize := len(stdin.buffer)
 		maxBufferSize := stdin.max
@@ -35,6 +38,7 @@ func (stdin *Stdin) Write(p []byte) (int, error) {
 		}
 	}
 
+	verifYield(stdin, "w.app")
 	stdin.mutex.Lock()
 	stdin.buffer = appendBytes(stdin.buffer, p...)
 	stdin.bWritten += uint64(len(p))
@@ -57,6 +61,7 @@ func (stdin *Stdin) WriteArray(dataType string) (stdio.ArrayWriter, error) {
 func (stdin *Stdin) ReadFrom(r io.Reader) (int64, error) {
 	var total int64
 
+	verifYield(stdin, "rf.max")
 	stdin.mutex.Lock()
 	stdin.max = 0
 	stdin.mutex.Unlock()
@@ -65,6 +70,7 @@ func (stdin *Stdin) ReadFrom(r io.Reader) (int64, error) {
 	i := 0
 
 	for {
+		verifYield(stdin, "rf.sel")
 		select {
 		case <-stdin.ctx.Done():
 			return total, io.ErrClosedPipe
